@@ -44,7 +44,7 @@ class Run(object):
       self.calls.append(('run_if', name))
       if run_if == 'raise':
         return 'EXC:PhaseBoom', None
-      if run_if == 'false':
+      if run_if in ('false', 'none', 'zero', 'empty'):
         return 'SKIP', None
       if run_if == 'once':
         k = self.counts['runif:' + name] = self.counts.get('runif:' + name, 0) + 1
@@ -286,7 +286,7 @@ class Run(object):
         continue
       if d == 'none':
         continue
-      is_f = d == 'TF'
+      is_f = d in ('TF', 'TFgen')
       self.diagnoses.append((d[:2], is_f))
       self.store.add(d[:2])
     ft = self.first_terminal
